@@ -149,18 +149,16 @@ Section Components.
       apply cr_step. split; [exact Hl|]. split; [exact Hh|]. right. exists ax. exact Hw.
   Qed.
 
-  Lemma connT_cells a b : connT a b -> In a cells -> In b cells /\
-    cl st (lab a) = cl st (lab b).
+  (* a torus path either is trivial or stays inside the mask, and then never leaves a cluster *)
+  Lemma connT_cl a b : connT a b ->
+    a = b \/ (In a cells /\ In b cells /\ cl st (lab a) = cl st (lab b)).
   Proof.
     intros H. induction H as [x|x y _ IH|x y z _ IH1 _ IH2|x y (Hx & Hy & Hs)].
-    - intros Hx. split; [exact Hx|reflexivity].
-    - (* symmetry needs membership of the other endpoint; handled by the two-sided lemma below *)
-      intros Hy. split; [|].
-      + (* placeholder, replaced by connT_both *) exact (proj1 (conj Hy I)).
-      + exact (eq_refl _).
-    - intros Hx. destruct (IH1 Hx) as [Hy E1]. destruct (IH2 Hy) as [Hz E2].
-      split; [exact Hz|congruence].
-    - intros _. split; [exact Hy|].
+    - left. reflexivity.
+    - destruct IH as [->|(Hx & Hy & E)]; [left; reflexivity|]. right. repeat split; auto.
+    - destruct IH1 as [->|(Hx & Hy & E1)]; [exact IH2|].
+      destruct IH2 as [<-|(_ & Hz & E2)]; right; repeat split; auto; congruence.
+    - right. split; [exact Hx|]. split; [exact Hy|].
       apply (merge_classes N n pos0 vol0 vol0_pos es es_ok).
       destruct Hs as [Ha|[ax Hw]].
       + assert (E : lab x = lab y).
@@ -168,4 +166,232 @@ Section Components.
         rewrite E. apply ec_refl.
       + eapply ec_edge. apply es_complete; eassumption.
   Qed.
+
+  Theorem components_classes a b : In a cells -> In b cells ->
+    (cl st (lab a) = cl st (lab b) <-> connT a b).
+  Proof.
+    intros Ha Hb. split.
+    - intros E. apply (merge_classes N n pos0 vol0 vol0_pos es es_ok) in E.
+      destruct (eqclos_connT _ _ E) as [El|(a' & b' & Ha' & Hb' & Ea & Eb & Hc)].
+      + apply same_lab_connT; assumption.
+      + apply cr_trans with a'; [apply same_lab_connT; auto|].
+        apply cr_trans with b'; [exact Hc|apply same_lab_connT; auto].
+    - intros H. destruct (connT_cl a b H) as [->|(_ & _ & E)]; [reflexivity|exact E].
+  Qed.
+
+  (* ---- regrouping: a sum over labels of per-label cell sums is a sum over cells ---- *)
+  Lemma regroup (P : nat -> bool) (f : cellT -> Q) (l : list cellT) :
+    (forall c, In c l -> (lab c < n)%nat) ->
+    sumn n (fun j => ind (P j) (lsum l (fun c => ind (Nat.eqb (lab c) j) (f c))))
+    == lsum l (fun c => ind (P (lab c)) (f c)).
+  Proof.
+    induction l as [|c l IH]; intros Hl.
+    - cbn [lsum]. rewrite (sumn_ext n _ (fun _ => 0)); [apply sumn_zero|].
+      intros j _. destruct (P j); reflexivity.
+    - cbn [lsum].
+      rewrite (sumn_ext n _ (fun j => ind (Nat.eqb j (lab c)) (ind (P j) (f c))
+                                    + ind (P j) (lsum l (fun c0 => ind (Nat.eqb (lab c0) j) (f c0))))).
+      + rewrite sumn_plus. rewrite (sumn_single n (lab c) (fun j => ind (P j) (f c))).
+        replace (lab c <? n)%nat with true
+          by (symmetry; apply Nat.ltb_lt; apply Hl; left; reflexivity).
+        rewrite IH by (intros c' Hc'; apply Hl; right; exact Hc'). reflexivity.
+      + intros j _. rewrite ind_plus. rewrite (Nat.eqb_sym j (lab c)).
+        destruct (Nat.eqb (lab c) j); destruct (P j); unfold ind; ring.
+  Qed.
+
+  (* msum of a per-label cell sum = cell sum over the cluster *)
+  Lemma msum_regroup (i : nat) (k : Q) (f : cellT -> Q) (F : nat -> Q) :
+    (forall j, (j < n)%nat -> F j == k * lsum cells (fun c => ind (Nat.eqb (lab c) j) (f c))) ->
+    msum n (cl st) i F == k * lsum cells (fun c => ind (Nat.eqb (cl st (lab c)) i) (f c)).
+  Proof.
+    intros HF. unfold msum.
+    rewrite (sumn_ext n _ (fun j => k * ind (Nat.eqb (cl st j) i)
+                                          (lsum cells (fun c => ind (Nat.eqb (lab c) j) (f c))))).
+    - rewrite sumn_scale. rewrite (regroup (fun j => Nat.eqb (cl st j) i) f cells lab_lt). reflexivity.
+    - intros j Hj. rewrite <- ind_scale. destruct (Nat.eqb (cl st j) i); unfold ind; [apply HF; exact Hj|reflexivity].
+  Qed.
+
+  (* ---- volumes ---- *)
+  Variable cellvol : Q.
+  Hypothesis cellvol_pos : 0 < cellvol.
+  Definition cnt (j : nat) : Q := lsum cells (fun c => ind (Nat.eqb (lab c) j) 1).
+  Hypothesis vol0_spec : forall j, (j < n)%nat -> vol0 j == cellvol * cnt j.
+
+  (* the canonical decision procedure for "c lies in the component of a" *)
+  Definition same (a c : cellT) : bool := Nat.eqb (cl st (lab c)) (cl st (lab a)).
+
+  Lemma same_spec a c : In a cells -> In c cells -> (same a c = true <-> connT a c).
+  Proof.
+    intros Ha Hc. unfold same. rewrite Nat.eqb_eq. rewrite (components_classes c a Hc Ha).
+    split; apply cr_sym.
+  Qed.
+
+  Lemma volume_same a : In a cells ->
+    mvol st (cl st (lab a)) == cellvol * lsum cells (fun c => ind (same a c) 1).
+  Proof.
+    intros Ha.
+    rewrite (merge_volume N n pos0 vol0 vol0_pos es es_ok (lab a) (lab_lt a Ha)).
+    apply (msum_regroup (cl st (lab a)) cellvol (fun _ => 1) vol0). exact vol0_spec.
+  Qed.
+
+  (* stored volume = cell volume * number of cells of the torus component, for ANY decision
+     procedure inC of the component *)
+  Theorem components_volume a (inC : cellT -> bool) : In a cells ->
+    (forall c, In c cells -> (inC c = true <-> connT a c)) ->
+    mvol st (cl st (lab a)) == cellvol * lsum cells (fun c => ind (inC c) 1).
+  Proof.
+    intros Ha HinC. rewrite (volume_same a Ha).
+    rewrite (lsum_ext cells (fun c => ind (same a c) 1) (fun c => ind (inC c) 1)); [reflexivity|].
+    intros c Hc. replace (same a c) with (inC c); [reflexivity|].
+    apply bool_eq_iff. rewrite (HinC c Hc), (same_spec a c Ha Hc). reflexivity.
+  Qed.
+
+  (* a duplicate-free enumeration of the component is a permutation of the filtered mask *)
+  Lemma comp_perm a (comp : list cellT) : In a cells -> NoDup comp ->
+    (forall c, In c comp <-> In c cells /\ connT a c) ->
+    Permutation (filter (same a) cells) comp.
+  Proof.
+    intros Ha Hnd Hcomp. apply NoDup_Permutation.
+    - apply NoDup_filter. exact cells_nodup.
+    - exact Hnd.
+    - intros c. rewrite filter_In, Hcomp. split.
+      + intros [Hc Hs]. split; [exact Hc|]. apply (same_spec a c Ha Hc). exact Hs.
+      + intros [Hc Hs]. split; [exact Hc|]. apply (same_spec a c Ha Hc). exact Hs.
+  Qed.
+
+  (* the same with the component given as a duplicate-free list: volume = cellvol * |component| *)
+  Theorem components_volume_list a (comp : list cellT) : In a cells -> NoDup comp ->
+    (forall c, In c comp <-> In c cells /\ connT a c) ->
+    mvol st (cl st (lab a)) == cellvol * inject_Z (Z.of_nat (length comp)).
+  Proof.
+    intros Ha Hnd Hcomp. rewrite (volume_same a Ha).
+    rewrite (lsum_filter cells (same a) (fun _ => 1)).
+    rewrite (lsum_perm _ _ (fun _ => 1) (comp_perm a comp Ha Hnd Hcomp)).
+    rewrite lsum_one. reflexivity.
+  Qed.
+
+  (* ---- positions ---- *)
+  Variable coord : cellT -> nat -> Q.             (* integer cell index along an axis, as a rational *)
+  (* centre-of-mass oracle in multiplied form: pos0 = mean of (index + 1/2) over the label *)
+  Hypothesis pos0_spec : forall j ax, (j < n)%nat ->
+    pos0 j ax * cnt j == lsum cells (fun c => ind (Nat.eqb (lab c) j) (coord c ax + (1 # 2))).
+
+  (* lifted (unwrapped) coordinate of a cell: shift its label by kappa periods *)
+  Definition lifted (kappa : nat -> nat -> Z) (t : nat -> Z) (c : cellT) (ax : nat) : Q :=
+    coord c ax + (1 # 2) + inject_Z ((kappa (lab c) ax + t ax) * N ax).
+
+  Lemma contrib_spec ax j : (j < n)%nat ->
+    contrib N pos0 vol0 st ax j
+    == cellvol * lsum cells (fun c => ind (Nat.eqb (lab c) j)
+                                        (coord c ax + (1 # 2) + inject_Z (off st (lab c) ax * N ax))).
+  Proof.
+    intros Hj. unfold contrib. rewrite (vol0_spec j Hj).
+    rewrite (lsum_ext cells _ (fun c => ind (Nat.eqb (lab c) j) (coord c ax + (1 # 2))
+                                       + inject_Z (off st j ax * N ax) * ind (Nat.eqb (lab c) j) 1)).
+    - rewrite lsum_plus, lsum_scale. rewrite <- (pos0_spec j ax Hj). fold (cnt j). ring.
+    - intros c _. destruct (Nat.eqb_spec (lab c) j) as [->|Hne]; unfold ind; ring.
+  Qed.
+
+  Lemma position_same kappa : lift_ok kappa es ->
+    exists t : nat -> nat -> Z, forall a ax, In a cells ->
+      mpos st (cl st (lab a)) ax * lsum cells (fun c => ind (same a c) 1)
+      == lsum cells (fun c => ind (same a c) (lifted kappa (t (cl st (lab a))) c ax)).
+  Proof.
+    intros Hl. destruct (merge_offsets N pos0 vol0 kappa es Hl) as [t Ht].
+    exists t. intros a ax Ha.
+    pose proof (merge_position N n pos0 vol0 vol0_pos es es_ok (lab a) ax (lab_lt a Ha)) as Hp.
+    cbv zeta in Hp.
+    rewrite (msum_regroup (cl st (lab a)) cellvol (fun _ => 1) vol0 vol0_spec) in Hp.
+    rewrite (msum_regroup (cl st (lab a)) cellvol
+               (fun c => coord c ax + (1 # 2) + inject_Z (off st (lab c) ax * N ax))
+               (contrib N pos0 vol0 st ax) (contrib_spec ax)) in Hp.
+    fold (same a) in Hp.
+    assert (Hp' : cellvol * (mpos st (cl st (lab a)) ax * lsum cells (fun c => ind (same a c) 1))
+                  == cellvol * lsum cells (fun c => ind (Nat.eqb (cl st (lab c)) (cl st (lab a)))
+                       (coord c ax + (1 # 2) + inject_Z (off st (lab c) ax * N ax)))).
+    { rewrite <- Hp. unfold same. ring. }
+    apply Qmult_inj_l in Hp'; [|intros E; rewrite E in cellvol_pos; discriminate cellvol_pos].
+    rewrite Hp'. apply lsum_ext. intros c _. unfold same.
+    destruct (Nat.eqb_spec (cl st (lab c)) (cl st (lab a))) as [E|E]; unfold ind; [|reflexivity].
+    unfold lifted. rewrite (Ht (lab c) ax), E. reflexivity.
+  Qed.
+
+  (* stored position * |component| = sum of the lifted cell centres, for any decision procedure *)
+  Theorem components_position kappa : lift_ok kappa es ->
+    exists t : nat -> nat -> Z, forall a ax (inC : cellT -> bool), In a cells ->
+      (forall c, In c cells -> (inC c = true <-> connT a c)) ->
+      mpos st (cl st (lab a)) ax * lsum cells (fun c => ind (inC c) 1)
+      == lsum cells (fun c => ind (inC c) (lifted kappa (t (cl st (lab a))) c ax)).
+  Proof.
+    intros Hl. destruct (position_same kappa Hl) as [t Ht]. exists t.
+    intros a ax inC Ha HinC.
+    assert (Hs : forall c, In c cells -> inC c = same a c).
+    { intros c Hc. apply bool_eq_iff. rewrite (HinC c Hc), (same_spec a c Ha Hc). reflexivity. }
+    rewrite (lsum_ext cells (fun c => ind (inC c) 1) (fun c => ind (same a c) 1))
+      by (intros c Hc; rewrite (Hs c Hc); reflexivity).
+    rewrite (lsum_ext cells (fun c => ind (inC c) (lifted kappa (t (cl st (lab a))) c ax))
+                            (fun c => ind (same a c) (lifted kappa (t (cl st (lab a))) c ax)))
+      by (intros c Hc; rewrite (Hs c Hc); reflexivity).
+    apply Ht. exact Ha.
+  Qed.
+
+  (* the same with the component given as a duplicate-free list:
+     stored position * |component| = sum over the component of the lifted cell centres *)
+  Theorem components_position_list kappa : lift_ok kappa es ->
+    exists t : nat -> nat -> Z, forall a ax (comp : list cellT), In a cells -> NoDup comp ->
+      (forall c, In c comp <-> In c cells /\ connT a c) ->
+      mpos st (cl st (lab a)) ax * inject_Z (Z.of_nat (length comp))
+      == lsum comp (fun c => lifted kappa (t (cl st (lab a))) c ax).
+  Proof.
+    intros Hl. destruct (position_same kappa Hl) as [t Ht]. exists t.
+    intros a ax comp Ha Hnd Hcomp.
+    pose proof (Ht a ax Ha) as H.
+    rewrite (lsum_filter cells (same a) (fun _ => 1)) in H.
+    rewrite (lsum_filter cells (same a)) in H.
+    rewrite (lsum_perm _ _ (fun _ => 1) (comp_perm a comp Ha Hnd Hcomp)) in H.
+    rewrite (lsum_perm _ _ _ (comp_perm a comp Ha Hnd Hcomp)) in H.
+    rewrite lsum_one in H. exact H.
+  Qed.
+
+  (* ---- what lift_ok means geometrically ----
+     For a wrap pair along ax (l at index 0, h at index N ax - 1, equal indices elsewhere) the lifted
+     cells are face neighbours along ax (lifted h + e_ax = lifted l) iff kappa h = kappa l - e_ax. *)
+  Lemma lift_adjacent (kappa : nat -> nat -> Z) (l h : cellT) (ax : nat) :
+    (forall a, N a <> 0%Z) ->
+    coord l ax == 0 -> coord h ax == inject_Z (N ax) - 1 ->
+    (forall a, a <> ax -> coord h a == coord l a) ->
+    ((forall a, coord h a + inject_Z (kappa (lab h) a * N a) + inject_Z (delta a ax)
+                == coord l a + inject_Z (kappa (lab l) a * N a))
+     <-> (forall a, kappa (lab h) a = (kappa (lab l) a - delta a ax)%Z)).
+  Proof.
+    intros HN Hl Hh Hother.
+    assert (Hd1 : delta ax ax = 1%Z) by (unfold delta; rewrite Nat.eqb_refl; reflexivity).
+    assert (Hd0 : forall a, a <> ax -> delta a ax = 0%Z).
+    { intros a Hne. unfold delta. destruct (Nat.eqb_spec a ax); [contradiction|reflexivity]. }
+    split; intros H a.
+    - specialize (H a). destruct (Nat.eq_dec a ax) as [Ea|Hne].
+      + subst a. rewrite Hd1 in *. rewrite Hl, Hh in H. change (inject_Z 1) with 1 in H.
+        assert (E : inject_Z ((kappa (lab h) ax + 1) * N ax) == inject_Z (kappa (lab l) ax * N ax)).
+        { rewrite Z.mul_add_distr_r, inject_Z_plus, Z.mul_1_l.
+          revert H. generalize (inject_Z (kappa (lab h) ax * N ax)), (inject_Z (kappa (lab l) ax * N ax)),
+                               (inject_Z (N ax)).
+          intros u v w H. clear - H. lra. }
+        apply (proj1 (inject_Z_injective _ _)) in E. apply Z.mul_cancel_r in E; [lia|apply HN].
+      + rewrite (Hd0 a Hne) in *. rewrite (Hother a Hne) in H. change (inject_Z 0) with 0 in H.
+        assert (E : inject_Z (kappa (lab h) a * N a) == inject_Z (kappa (lab l) a * N a)).
+        { revert H. generalize (inject_Z (kappa (lab h) a * N a)), (inject_Z (kappa (lab l) a * N a)).
+          intros u v H. clear - H. lra. }
+        apply (proj1 (inject_Z_injective _ _)) in E. apply Z.mul_cancel_r in E; [lia|apply HN].
+    - rewrite (H a). destruct (Nat.eq_dec a ax) as [Ea|Hne].
+      + subst a. rewrite Hd1. rewrite Hl, Hh. rewrite Z.mul_sub_distr_r, Z.mul_1_l.
+        unfold Z.sub. rewrite inject_Z_plus, inject_Z_opp. change (inject_Z 1) with 1. ring.
+      + rewrite (Hd0 a Hne). rewrite (Hother a Hne). rewrite Z.sub_0_r. change (inject_Z 0) with 0. ring.
+  Qed.
 End Components.
+
+Print Assumptions components_classes.
+Print Assumptions components_volume.
+Print Assumptions components_volume_list.
+Print Assumptions components_position.
+Print Assumptions components_position_list.
+Print Assumptions lift_adjacent.
